@@ -257,3 +257,82 @@ def unused_value(pc):
     if pc.prim == "str":
         return "dflt"
     return "Q"
+
+
+# ---------------------------------------------------------------------------------------------------------------
+# two primitive counterparts with default and dedicated literals (README 'Mapping to multiple structs' applied to literals)
+
+def gen_two_prim_case(g, cid):
+    r = g.r
+    pc = type("PrimCase", (), {})()
+    pc.cid = cid
+    pc.prim = "u8+i32"
+    pc.two = True
+    pc.fallible = g.chance(0.3)
+    pc.ref = False
+    pc.into = True
+    pc.catch_all = False
+    pc.default = dict(mode="panic", k=g.mark())
+    pc.arms = []
+    used8, used32 = set(), set()
+    pc.variants = []
+    for i in range(r.randint(1, 5)):
+        a = r.randint(0, 255)
+        while a in used8:
+            a = r.randint(0, 255)
+        used8.add(a)
+        b = r.randint(-1000, 1000)
+        while b in used32:
+            b = r.randint(-1000, 1000)
+        used32.add(b)
+        form = r.choice(["default_first", "dedicated_first", "both_dedicated", "both_dedicated_rev"])
+        pc.variants.append(dict(name=f"V{i}", u8=a, i32=b, form=form))
+        pc.arms.append(Arm(f"V{i}", "lit", a))
+    return pc
+
+
+def render_two_prim_case(pc, g):
+    fal = pc.fallible
+    from .model import FALLIBLE_NAME
+    it = Item("enum", "S", vis="pub ")
+    d = pc.default
+    dflt = [("default", f'=> panic!("d{d["k"]}")')]
+    for P in ("u8", "i32"):
+        nm = g.pick(["map_owned", "map_owned"])
+        it.attrs.append(Instr(FALLIBLE_NAME[nm] if fal else nm, "trait", ty=P, hint=None, err="Er" if fal else None, params=dflt))
+    for v in pc.variants:
+        # the default literal is the i32 one; the u8 counterpart has a dedicated literal
+        if v["form"] == "default_first":
+            attrs = [Instr("literal", "literal", container=None, tokens=lit(v["i32"], "i32")), Instr("literal", "literal", container="u8", tokens=str(v["u8"]))]
+        elif v["form"] == "dedicated_first":
+            attrs = [Instr("literal", "literal", container="u8", tokens=str(v["u8"])), Instr("literal", "literal", container=None, tokens=lit(v["i32"], "i32"))]
+        elif v["form"] == "both_dedicated":
+            attrs = [Instr("literal", "literal", container="u8", tokens=str(v["u8"])), Instr("literal", "literal", container="i32", tokens=lit(v["i32"], "i32"))]
+        else:
+            attrs = [Instr("literal", "literal", container="i32", tokens=lit(v["i32"], "i32")), Instr("literal", "literal", container="u8", tokens=str(v["u8"]))]
+        it.variants.append(Variant(v["name"], "unit", [], attrs))
+    derive_src = it.render(derive="#[derive(Clone, Debug, PartialEq, o2o::o2o)]")
+    L = [PRELUDE, derive_src, ""]
+    for P in ("u8", "i32"):
+        chain = " ".join(f"if v == {lit(v[P], P)} {{ return {'Ok(' if fal else ''}S::{v['name']}{')' if fal else ''}; }}" for v in pc.variants)
+        L.append(f"#[allow(unreachable_code)] fn ref_from_{P}(v: {P}) -> {'Result<S, Er>' if fal else 'S'} {{ {chain} panic!(\"d{d['k']}\") }}")
+        L.append(f"fn ref_into_{P}(s: &S) -> {P} {{ match s {{ " + " ".join(f"S::{v['name']} => {lit(v[P], P)}," for v in pc.variants) + " } }")
+    tag = f"c{pc.cid}{'f' if fal else 'i'}"
+    pre = "try_" if fal else ""
+    D = ["pub fn run(log: &mut crate::rt::Log) {"]
+    D.append("    let v8: Vec<u8> = (u8::MIN..=u8::MAX).collect();")
+    pts = sorted({x for v in pc.variants for x in (v["i32"] - 1, v["i32"], v["i32"] + 1)} | {v["u8"] for v in pc.variants})
+    D.append("    let v32: Vec<i32> = vec![" + ", ".join(lit(x, "i32") for x in pts) + "];")
+    for P, vec in (("u8", "v8"), ("i32", "v32")):
+        frm = f"<S as TryFrom<{P}>>::try_from(v)" if fal else f"<S as From<{P}>>::from(v)"
+        D.append(f"    for (d, v) in {vec}.iter().enumerate() {{ let v = *v;")
+        D.append(f'        log.ev("{tag}", "{pre}from_owned:{P}", d, &format!("{{:?}}", v), &crate::rt::guard(|| {frm}), &crate::rt::guard(|| ref_from_{P}(v)));')
+        D.append("    }")
+    D.append("    let ss: Vec<S> = vec![" + ", ".join(f"S::{v['name']}" for v in pc.variants) + "];")
+    D.append("    for (d, s) in ss.iter().enumerate() {")
+    for P in ("u8", "i32"):
+        call = f"{{ let x: Result<{P}, Er> = s.clone().try_into(); x }}" if fal else f"{{ let x: {P} = s.clone().into(); x }}"
+        want = f"Ok::<_, Er>(ref_into_{P}(s))" if fal else f"ref_into_{P}(s)"
+        D.append(f'        log.ev("{tag}", "{pre}owned_into:{P}", d, &format!("{{:?}}", s), &crate::rt::guard(|| {call}), &crate::rt::guard(|| {want}));')
+    D += ["    }", "}"]
+    return "\n".join(L + D) + "\n", derive_src
